@@ -14,7 +14,7 @@ func VerifC09PerRoute() {
 	if verif.Thorough() {
 		modes = 3 // | malformed
 	}
-	s := c17Spec{route: verif.Choice("route", 4), id: "a",
+	s := c17Spec{route: verif.Choice("route", 6), id: "a",
 		apiKey: verif.Choice("X-API-Key", modes), requestID: verif.Choice("X-Request-ID", modes), count: verif.Choice("X-Count", modes), ten: verif.Choice("X-Tenant", 2)}
 	if s.route == 0 {
 		s.query = 1 // the required query parameter of GetItem
